@@ -28,6 +28,12 @@ CHECKS = {
   text="Pure part: every ordered pair of ~107 single-denomination and ~43 multi-denomination period lists (zero-length periods, simultaneous events) x 9 start-offset pairs x every read instant through ReadSchedule, ReadPastPeriodCount, DisjunctPeriods, ConjunctPeriods, account identities and ComputeClawback. Stateful part: all sequences <= 3 (thorough 4) over create, merge via both message paths, clawback by funder/other/to third party, funder updates and time jumps; after each message the stored account is compared with the union/cap reference at every event time +-1, bank deltas must equal the grant / the unvested amount, and the account must pass Validate().",
   note="Union property required for t > max(start), capping outside (minStart,maxStart] (boundary rule of ReadSchedule at t = start). Messages run through the msg-service router; block time set on the branch header.",
   design="DESIGN.md §3 C09"),
+ "C11": dict(
+  technique="exhaustive grid enumeration of the split arithmetic plus explicit-state exploration (DFS, digest dedup) of liquidate/transfer/redeem/time sequences on the real msg servers with conservation and shadow-world no-early-unlock oracles in every state",
+  engine="E1",
+  text="Pure part: SubtractAmountFromPeriods on every period list with <=3 periods, amounts 0..4 (thorough 0..6), optional second denomination and every subtrahend 0..total+1; CurrentPeriodShift at every integer time. Stateful part: every sequence <= 3 (thorough 4) of liquidate (amount classes 1/half/all/all+1, to self or another holder), liquid-token transfer, redeem (to self / plain account / another vesting account with earlier or later start) and time jumps; in every state module backing == liquid supply, schedule sum == supply per denom, exact debit/credit per step, account+denom schedule == original schedule after a split, and total locked(t') >= locked in the world where nothing was liquidated for all future event times.",
+  note="Messages through the msg-service router; block time set on the branch header; liquid tokens moved by ConvertERC20 + bank send; small integer amounts with minimum liquidation amount parameter set to 1.",
+  design="DESIGN.md §3 C11"),
 }
 
 PENDING = {}
